@@ -49,6 +49,59 @@ def replay_running_average(info, ce):
     return dict(status='not-reproduced', detail='running_average returns the window means on %d records' % len(cases))
 
 
+def replay_after_earlier_request(info, cls, kind, gibbs):
+    """two-call history: ANOTHER signal is filtered first (same kind of request, or the kind named in history_case, with the same
+    cut-off frequencies / order), then the request under test is made; its output must still be SciPy's filter of ITS request"""
+    import eqsig
+    from scipy.signal import butter, filtfilt
+    hc = info.get('history_case') or ''
+    prior_kinds = [hc.split('=', 1)[1]] if hc.startswith('cut=') else [kind]
+    prior_gibbs = gibbs
+    if hc.startswith('gibbs='):
+        prior_gibbs = None if hc.split('=', 1)[1] == 'None' else hc.split('=', 1)[1]
+    prior_cls = getattr(eqsig, hc.split('=', 1)[1]) if hc.startswith('cls=') else cls
+    rng = np.random.RandomState(9)
+    for pk in prior_kinds:
+        for n in (200, 513):
+            for dt in (0.01, 0.05):
+                for order in (3,):
+                    for lo, hi in ((2.0, 2.0), (0.5, 5.0)):
+                        if lo == hi and ('band' in kind or 'band' in pk):
+                            continue
+                        x0, x = rng.randn(n), rng.randn(n)
+                        for m in [m for m in list(__import__('sys').modules) if m == 'eqsig' or m.startswith('eqsig.')]:
+                            pass
+                        s0 = prior_cls(x0, dt)
+                        kw0 = dict(filter_order=order)
+                        if prior_gibbs is not None:
+                            kw0.update(remove_gibbs=prior_gibbs)
+                        try:
+                            s0.butter_pass(cut_off=_mk(pk, lo, hi)[0], **kw0)
+                        except Exception:
+                            continue
+                        cut, ftype = _mk(kind, lo, hi)
+                        kw = dict(filter_order=order)
+                        if gibbs is not None:
+                            kw.update(remove_gibbs=gibbs)
+                        s = cls(x.copy(), dt)
+                        s.butter_pass(cut_off=cut, **kw)
+                        # reference: the same request on an object of a process state that has seen no other request is not available
+                        # in-process, so the reference is SciPy itself (no Gibbs padding) or a second identical request (with padding)
+                        nyq = 0.5 / dt
+                        wn = {'band': [lo / nyq, hi / nyq], 'low': hi / nyq, 'high': lo / nyq}[ftype]
+                        if gibbs is None:
+                            b, a = butter(order, wn, btype=ftype)
+                            ref = filtfilt(b, a, x)
+                            got = np.asarray(s.values)
+                            if got.shape != ref.shape or np.max(np.abs(got - ref)) > 1e-9 * max(1.0, np.max(np.abs(ref))):
+                                return dict(status='confirmed', observed={'max_difference_from_scipy_reference': float(np.max(np.abs(got - ref))) if got.shape == ref.shape else 'shape'},
+                                            detail='after an earlier %s request on another signal (same cut-off frequency and order) the %s request is not '
+                                                   'filtfilt(butter(order, cut/nyquist, %s)) of its record' % (pk, kind, ftype),
+                                            input={'history': ['other.butter_pass(%r, filter_order=%d)' % (_mk(pk, lo, hi)[0], order), 'sig.butter_pass(%r, filter_order=%d)' % (cut, order)],
+                                                   'n': n, 'dt': dt, 'values_seed': 9})
+    return None
+
+
 def replay(info, ce):
     import eqsig
     from scipy.signal import butter, filtfilt
@@ -56,6 +109,10 @@ def replay(info, ce):
         return replay_running_average(info, ce)
     cls = getattr(eqsig, info.get('cls', 'AccSignal'))
     kind, gibbs = info.get('cut', 'band-tuple'), info.get('gibbs')
+    if info.get('history') == 'prior':
+        r = replay_after_earlier_request(info, cls, kind, gibbs)
+        if r is not None:
+            return r
     rng = np.random.RandomState(4)
     for n in (200, 513):
         for dt in (0.01, 0.05):
